@@ -109,6 +109,35 @@ func (ex *Exec) nativeCall(key string, callee *ssa.Function, c *ssa.CallCommon, 
 		}
 		vc.assumptions["sort.Slice leaves a permutation of the slice in which less(j,i) is false for all i<j; it writes nothing else"] = true
 		return Val{}, true
+	case "time.NewTicker":
+		note()
+		return Val{T: ex.newRef("ticker")}, true
+	case "(*time.Ticker).Stop", "(*time.Timer).Stop":
+		note()
+		if key == "(*time.Timer).Stop" {
+			return Val{T: vc.fresh(ex.pfx+"stopped", "Bool")}, true
+		}
+		return Val{}, true
+	case "errors.Join":
+		note()
+		// nil iff every argument is nil; a joined error has no single wrapped error (errors.Unwrap gives nil)
+		vc.declareOnce("fn:unwrapOf", "(declare-fun unwrapOf (Int) Int)")
+		r := vc.fresh(ex.pfx+"joined", "Int")
+		n := staticLen(c.Args[0])
+		if n < 0 {
+			break
+		}
+		E := ex.get(ex.curState, "E:Int", "(Array Int (Array Int Int))")
+		var nils []string
+		for k := 0; k < n; k++ {
+			nils = append(nils, fmt.Sprintf("(= (select (select %s (sarr %s)) (ix (soff %s) %d)) 0)", E, args[0].T, args[0].T, k))
+		}
+		vc.assume(sImp(ex.curReach, sAnd(sEq(sEq(r, "0"), sAnd(nils...)), "(= (unwrapOf "+r+") 0)", sNot(sSel(ex.allocComp(ex.curState), "(rootOf "+r+")")))))
+		return Val{T: r}, true
+	case "errors.Unwrap":
+		note()
+		vc.declareOnce("fn:unwrapOf", "(declare-fun unwrapOf (Int) Int)")
+		return Val{T: sIte(sEq(args[0].T, "0"), "0", "(unwrapOf "+args[0].T+")")}, true
 	case "runtime.SetFinalizer":
 		note()
 		return Val{}, true
@@ -322,17 +351,56 @@ func (ex *Exec) convertOther(i *ssa.Convert, from, to types.Type, x Val) {
 // ---------------------------------------------------------------- goroutines and channels (named special cases)
 
 func (ex *Exec) doGo(i *ssa.Go) {
-	ex.vc.errorf("go statement at %s is outside the supported subset", ex.vc.w.pos(i.Pos()))
+	// `go f(args)`: the new goroutine runs concurrently with this one and is verified as a function of its own
+	// (started with no lock held); starting it has no effect on this activation's state.
+	ex.vc.assumptions["a goroutine started by `go` is verified separately (as a function entered with no lock held); its start has no effect on the spawning call"] = true
+	top := ex
+	for top.parent != nil {
+		top = top.parent
+	}
+	if top.vc.spec != nil {
+		name := calleeName(&i.Call)
+		st := ex.curState
+		ex.set(st, "GOCNT", "Int", "(+ "+ex.get(st, "GOCNT", "Int")+" 1)")
+		_ = name
+	}
 }
 
+// Channels carry no verified protocol: a send has no effect on memory, a receive yields an arbitrary value.
 func (ex *Exec) doSend(i *ssa.Send) {
-	ex.vc.errorf("channel send at %s is outside the supported subset", ex.vc.w.pos(i.Pos()))
+	ex.vc.assumptions["channel operations are not given a protocol: a send has no effect on memory, a receive yields an arbitrary value (blocking and wake-up order are not modelled)"] = true
 }
 
 func (ex *Exec) doRecv(i *ssa.UnOp) {
-	ex.vc.errorf("channel receive at %s is outside the supported subset", ex.vc.w.pos(i.Pos()))
+	ex.vc.assumptions["channel operations are not given a protocol: a send has no effect on memory, a receive yields an arbitrary value (blocking and wake-up order are not modelled)"] = true
+	if i.CommaOk {
+		ex.vals[i] = Val{Tup: []Val{{T: ex.vc.fresh(ex.pfx+i.Name(), ex.sortOfT(ex.typ(i.Type()).(*types.Tuple).At(0).Type()))}, {T: ex.vc.fresh(ex.pfx+i.Name()+"_ok", "Bool")}}}
+		return
+	}
 	ex.vals[i] = Val{T: ex.vc.fresh(ex.pfx+i.Name(), ex.sortOfT(i.Type()))}
+	if isTimeAfterRecv(i) != nil {
+		return
+	}
 }
+
+// doSelect: a blocking select takes one of its cases, nondeterministically; received values are arbitrary.
+func (ex *Exec) doSelect(i *ssa.Select) {
+	ex.vc.assumptions["channel operations are not given a protocol: a send has no effect on memory, a receive yields an arbitrary value (blocking and wake-up order are not modelled)"] = true
+	idx := ex.vc.fresh(ex.pfx+i.Name()+"_case", "Int")
+	lo := "0"
+	if !i.Blocking {
+		lo = "(- 1)"
+	}
+	ex.vc.assume(fmt.Sprintf("(and (<= %s %s) (< %s %d))", lo, idx, idx, len(i.States)))
+	tup := []Val{{T: idx}, {T: ex.vc.fresh(ex.pfx+i.Name()+"_rok", "Bool")}}
+	tt := ex.typ(i.Type()).(*types.Tuple)
+	for k := 2; k < tt.Len(); k++ {
+		tup = append(tup, Val{T: ex.vc.fresh(ex.pfx+i.Name()+"_rv", ex.sortOfT(tt.At(k).Type()))})
+	}
+	ex.vals[i] = Val{Tup: tup}
+}
+
+func isTimeAfterRecv(i *ssa.UnOp) *ssa.Call { return nil }
 
 func (ex *Exec) chanClose(ch string) {}
 
